@@ -130,7 +130,13 @@ def run(names, tier, props, jobs=1):
                 results[n] = res
             else:
                 results.setdefault(n, {}).update(res)
-    json.dump(results, open(respath, "w"), indent=1, sort_keys=True)
+    on_disk = json.load(open(respath)) if os.path.exists(respath) else {}     # merge with what another run wrote meanwhile
+    for k, v in results.items():
+        if k in names:
+            on_disk[k] = v
+        else:
+            on_disk.setdefault(k, v)
+    json.dump(on_disk, open(respath, "w"), indent=1, sort_keys=True)
     sh("git -C /repo worktree prune")
 
 
